@@ -57,10 +57,13 @@ def note_shift(st, old, new, c):
         return
     z = st.zone
     add = []
+    # by identity; when no entry mentions this very term, by equality in the zone (the same value may be held
+    # under several canonical names after a loop-head join)
+    ident = any(h is old or l is old for h, l, _ in st.aux)
     for h, l, d in st.aux:
         dc = None
-        hit_h = h is old or (isinstance(h, Term) and z.entails_eq(h, old))
-        hit_l = (not hit_h) and (l is old or (isinstance(l, Term) and z.entails_eq(l, old)))
+        hit_h = h is old or (not ident and isinstance(h, Term) and z.entails_eq(h, old))
+        hit_l = (not hit_h) and (l is old or (not ident and isinstance(l, Term) and z.entails_eq(l, old)))
         if hit_h:
             dc = c
         elif hit_l:
